@@ -6,7 +6,7 @@ from .astutil import unparse, dotted, walk_no_nested, fold, NotConstant
 from . import oracle, docs
 from .encsum import (all_summaries, oracle_spec, compare_with_oracle, injectivity, mask_after_guard, derived_operand,
                      canon, show_cells)
-from .wiring import parse_item_outcomes
+from .wiring import parse_item_outcomes, admits
 
 ASM = 'bronzebeard/asm.py'
 
@@ -152,18 +152,21 @@ ROLE_SYNONYMS = {
 
 
 def class_tables(facts):
-    """{class name: set of table names} from the arms of parse_item (tables whose arm returns that class),
-    and the outcomes per table."""
-    arms, _ = parse_item_outcomes(facts)
+    """{class name: set of table names} and {table name: [Outcome]}: for every mnemonic table, the parse_item outcomes a line that
+    starts with one of its mnemonics can reach (decided from each path's facts about the first token, so it does not matter
+    whether parse_item dispatches on the tables, on single names, through a dispatch dict or an ordered list of parsers)."""
+    arms, else_outs = parse_item_outcomes(facts)
+    outcomes = [o for _, _, outs in arms for o in outs] + list(else_outs)
     cls_tables = {}
     table_outcomes = {}
-    for key, test, outcomes in arms:
-        if key[0] != 'table':
-            continue
-        table_outcomes[key[1]] = outcomes
+    for tname, table in facts.instruction_tables().items():
         for o in outcomes:
-            if o.kind == 'return' and o.cls:
-                cls_tables.setdefault(o.cls, set()).add(key[1])
+            if not o.path.head_facts or not any(f[2] for f in o.path.head_facts):
+                continue            # a path that never asked about the mnemonic (labels, constants, the final refusal)
+            if any(admits(facts, o.path, m) for m in table):
+                table_outcomes.setdefault(tname, []).append(o)
+                if o.kind == 'return' and o.cls:
+                    cls_tables.setdefault(o.cls, set()).add(tname)
     return cls_tables, table_outcomes
 
 
@@ -171,6 +174,8 @@ def operand_index(prov):
     """Which source operand (token index) a constructor argument comes from, and in which shape."""
     if prov[0] == 'tok':
         return prov[1], 'token'
+    if prov[0] == 'lower' and prov[1][0] == 'tok':
+        return prov[1][1], 'token'
     if prov[0] == 'imm':
         inner = prov[1]
         if inner[0] == 'rest' and inner[2] == 0:
@@ -200,10 +205,10 @@ def check_wiring(report, facts, rule, compressed, doc_text):
         if not mns:
             continue
         outs = table_outcomes.get(tname)
-        if outs is None and opaque_returns:
+        if opaque_returns:
             o = opaque_returns[0]
-            raise AnalysisError('parse_item returns a value the token flow cannot follow ({}): whether {} is consulted is not '
-                                'understood'.format(unparse(o.node).split('\n')[0], tname))
+            raise AnalysisError('parse_item returns a value the token flow cannot follow ({}): which item is built for a line is '
+                                'not understood'.format(unparse(o.node).split('\n')[0]))
         if outs is None:
             report.fail(Finding(rule, 'parse_item', 'no arm for ' + tname,
                                 'mnemonic table {} is never consulted by parse_item: {} cannot be written'.format(tname, mns),
@@ -214,6 +219,7 @@ def check_wiring(report, facts, rule, compressed, doc_text):
             report.fail(Finding(rule, 'parse_item', 'no constructor for ' + tname,
                                 'the arm for {} builds no instruction item'.format(tname), line=fn_line(facts, 'parse_item')))
             continue
+        built = set()
         for o in rets:
             cls = o.cls
             report.count('parse paths analysed')
@@ -243,16 +249,6 @@ def check_wiring(report, facts, rule, compressed, doc_text):
                 report.fail(Finding(rule, 'parse_item', o.node, '{}: the mnemonic token does not reach the name field'.format(cls),
                                     line=o.node.lineno))
             paren = o.path.paren_form()
-            # a path taken only for mnemonics of a further named set (BASE_OFFSET_INSTRUCTIONS) applies to those only
-            restrict = None
-            for ref in o.path.head_sets(True):
-                if ref == ('ref', tname):
-                    continue
-                vals = facts.sets.get(ref[1]) if ref[0] == 'ref' else (ref[1] if ref[0] == 'const' else None)
-                if vals is None and ref[0] == 'ref' and ref[1] in facts.tables:
-                    vals = set(facts.tables[ref[1]])
-                if vals is not None:
-                    restrict = set(vals) if restrict is None else restrict & set(vals)
             # route: encoder positional index -> token index
             route = []
             ok_route = True
@@ -268,8 +264,9 @@ def check_wiring(report, facts, rule, compressed, doc_text):
                         attr, cls, bound[param], unparse(o.node).split('\n')[0]))
                 route.append((idx, attr, tok, shape))
             for m in mns:
-                if restrict is not None and m not in restrict:
-                    continue
+                if not admits(facts, o.path, m):
+                    continue            # a line starting with m never takes this path
+                built.add(m)
                 s = sums[m]
                 spec = oracle_spec(m)
                 if spec is None:
@@ -323,6 +320,11 @@ def check_wiring(report, facts, rule, compressed, doc_text):
                         report.fail(Finding(rule, 'parse_item', o.node, '{}: {}'.format(label, pr), line=o.node.lineno), instance=label)
                 else:
                     report.ok(rule, label + ': operand k -> encoder parameter k')
+        for m in mns:
+            if m not in built and oracle_spec(m) is not None:
+                report.fail(Finding(rule, 'parse_item', 'no constructor for ' + m,
+                                    'no path of parse_item builds an instruction item for {} ({}): it cannot be written'.format(m, tname),
+                                    line=fn_line(facts, 'parse_item')), instance=m)
         # documented syntax agrees with the oracle's operand roles
         for m in mns:
             spec = oracle_spec(m)
